@@ -39,10 +39,14 @@ pub struct Action {
     /// sleep this many microseconds after each piece so that the client observes separate reads
     #[serde(default)]
     pub pace_us: u32,
+    /// announce this Content-Length whatever the body's real length is (a lying or broken server); the body is sent as it
+    /// is and the connection closed
+    #[serde(default)]
+    pub declared_len: Option<u64>,
 }
 impl Default for Action {
     fn default() -> Self {
-        Action { status: 206, body: Body::Range, cut_after: None, drop: false, pieces: vec![], chunked: false, pace_us: 0 }
+        Action { status: 206, body: Body::Range, cut_after: None, drop: false, pieces: vec![], chunked: false, pace_us: 0, declared_len: None }
     }
 }
 
@@ -193,7 +197,7 @@ fn handle(mut s: TcpStream, data: &Arc<Vec<u8>>, script: &Script, index: usize, 
     if action.chunked {
         head.push_str("Transfer-Encoding: chunked\r\n\r\n");
     } else {
-        head.push_str(&format!("Content-Length: {}\r\n\r\n", body.len()));
+        head.push_str(&format!("Content-Length: {}\r\n\r\n", action.declared_len.unwrap_or(body.len() as u64)));
     }
     log.lock().unwrap()[slot].status = status;
     if s.write_all(head.as_bytes()).is_err() {
